@@ -7,8 +7,10 @@ namespace c12 {
 using namespace Fastor;
 using vla::ld;
 
-// Calibration (seeds 1..5, unchanged tree, constant 1): largest observed ||A x - b|| / (n eps kappa_eff ||b||) -> x16.
-static const double C_BOUND = 64.0;
+// Calibration (quick tier, seeds 1..5, unchanged tree, the known-defective solve<SimpleInvPiv>(A, matrix rhs) instances excluded):
+// largest observed ||A x - b|| / (n eps kappa_eff ||b||) was 1.36, 1.33, 1.58, 1.48, 1.33 (small n dominate: at n=1 two
+// roundings already give 2) -> fixed at 16x the largest = 25.
+static const double C_BOUND = 25.0;
 static const double G_LIMIT = 64.0;
 template <class T> inline ld kappa_limit() { return sizeof(T) == 4 ? 1e4L : 1e7L; }
 
@@ -68,7 +70,7 @@ bool judge_solution(vf::Ctx &ctx, const char *what, const std::vector<ld> &M, co
     ld r = 0, nb = 0;
     for (size_t i = 0; i < n; ++i) { r = std::max(r, std::fabs(MX[i * k + j] - rhs[i * k + j])); nb = std::max(nb, std::fabs(rhs[i * k + j])); }
     ld bound = ceps * keff * nb + (ld)C_BOUND * (ld)n * (ld)std::numeric_limits<T>::min() * std::max((ld)1, normM) * keff;
-    ctx.see_ratio((double)(r / bound));
+    if (r <= bound) ctx.see_ratio((double)(r / bound));      // worst ratio among comparisons that passed (failures are reported as such)
     if (!(r <= bound)) {
       ctx.fail("%s: column %zu of the right-hand side: ||A*x - b||_inf = %.4Lg exceeds %.3g*n*eps*kappa_eff*||b||_inf = %.4Lg (n=%zu kappa=%.4Lg kappa_eff=%.4Lg ||b||=%.4Lg)",
                what, j, r, C_BOUND, bound, n, kappa, keff, nb);
